@@ -279,6 +279,8 @@ def run(chk: Check):
     rule_z1(chk, ix)
     rule_z2_z3(chk, ix)
     rule_z6(chk, ix)
+    from .bufeval import rule_buffer_evaluation
+    rule_buffer_evaluation(chk, "peek", "Z4-line-source")
     rule_source_verbatim(chk, ix)
     rule_z4(chk, ix)
     # string mode serves error text from token `line`s: string tokens must carry their lines (C08 L2); the cache must be
